@@ -247,7 +247,8 @@ def cpu_limit(seconds):
     def handler(signum, frame):
         raise Timeout()
     old = signal.signal(signal.SIGVTALRM, handler)
-    signal.setitimer(signal.ITIMER_VIRTUAL, seconds)
+    # periodic: code under test with a bare `except:` may swallow the first Timeout
+    signal.setitimer(signal.ITIMER_VIRTUAL, seconds, 0.5)
     try:
         yield
     finally:
@@ -1266,7 +1267,7 @@ def second_rendering(e, kind):
                 p = L.poly_of_e(e)
             except L.NotPoly:
                 p = None
-            e2 = draw(L.flat_rendering(p, kind)) if p is not None else None
+            e2 = draw(L.flat_rendering(p, kind)) if p is not None and len(p) <= 14 else None
             if e2 is None:
                 e2 = draw(L.rearranged(e, kind))
             elif how == 'flat-moves':
